@@ -123,11 +123,11 @@ func CheckC02(c *Ctx) {
 			c.Distinct.Add(HashBytes(vi, list[i]))
 		})
 	}
-	// COMPLETE: every assignment with at most 3 (thorough: 4) optional metrics defined x all their values
+	// COMPLETE: every assignment with at most 4 (thorough: 5) optional metrics defined x all their values
 	for vi, api := range probe.APIs {
 		api, vi := api, vi
 		v := api.Ver
-		subsets := gen.SparseSubsets(v, c.Pick(3, 4))
+		subsets := gen.SparseSubsets(v, c.Pick(4, 5))
 		c.Parallel("at-most-k-defined-"+v.Name, len(subsets), 1, func(w *Worker, i int) {
 			base := gen.KSparseAssign(w.R, v, 0)
 			n := 0
